@@ -203,11 +203,13 @@ static void containment_and_accuracy(unsigned long long& unit)
 		for(int dim = 1; dim <= 6; dim++)
 			for(int reg = 0; reg < 4; reg++)
 				for(int budget : budgets)
-					for(int fam = 0; fam < 4; fam++)
+					for(int fam = 0; fam < 6; fam++)
 						for(unsigned seed : seeds)
 						{
 							if(!mc::mine(unit++)) continue;
 							if(mc::out_of_time("C14 containment")) return;
+							// families 4 and 5: sharply peaked off-centre Gaussians (width 0.07 and 0.1 of the side, centred at 0.7)
+							const ld gs = fam == 4 ? 0.07L : fam == 5 ? 0.1L : 0.25L, gc = fam >= 4 ? 0.7L : 0.3L;
 							// regions: offset, anisotropic, tiny and huge widths
 							V region(2 * dim);
 							for(int j = 0; j < dim; j++)
@@ -226,18 +228,18 @@ static void containment_and_accuracy(unsigned long long& unit)
 								{
 									case 0: return 2.75;
 									case 1: for(double u : t) s *= std::exp(-u); return s;
-									case 2: for(double u : t) s *= std::exp(-(u - 0.3) * (u - 0.3) / (2 * 0.25 * 0.25)); return s;
+									case 2: case 4: case 5: for(double u : t) s *= std::exp(-(u - (double)gc) * (u - (double)gc) / (2 * (double)gs * (double)gs)); return s;
 									default: for(double u : t) s *= (0.5 + u * u); return s;
 								}
 							};
 							ld m1 = 1, m2 = 1;	 // per-axis first and second moments
 							if(fam == 1) { m1 = 1 - expl(-1.0L); m2 = (1 - expl(-2.0L)) / 2; }
-							if(fam == 2)
+							if(fam == 2 || fam >= 4)
 							{
-								ld s = 0.25L;
-								m1 = s * sqrtl(M_PIl / 2) * (erfl(0.7L / (sqrtl(2.0L) * s)) + erfl(0.3L / (sqrtl(2.0L) * s)));
+								ld s = gs;
+								m1 = s * sqrtl(M_PIl / 2) * (erfl((1 - gc) / (sqrtl(2.0L) * s)) + erfl(gc / (sqrtl(2.0L) * s)));
 								ld s2 = s / sqrtl(2.0L);
-								m2 = s2 * sqrtl(M_PIl / 2) * (erfl(0.7L / (sqrtl(2.0L) * s2)) + erfl(0.3L / (sqrtl(2.0L) * s2)));
+								m2 = s2 * sqrtl(M_PIl / 2) * (erfl((1 - gc) / (sqrtl(2.0L) * s2)) + erfl(gc / (sqrtl(2.0L) * s2)));
 							}
 							if(fam == 3) { m1 = 0.5L + 1 / 3.0L; m2 = 0.25L + 1 / 3.0L + 0.2L; }
 							if(fam == 0) { exact = 2.75L * vol; var = 0; }
